@@ -206,7 +206,11 @@ def run_property(pid, tier, seed):
             continue
         violations.append(o)
     replay_paths = []
+    seen_names = set()
     for o in violations:
+        if o.name in seen_names:        # one report per named obligation (the first failing path is kept)
+            continue
+        seen_names.add(o.name)
         h = hashlib.sha256(o.name.encode()).hexdigest()[:12]
         d = os.path.join(HERE, 'replay', pid)
         os.makedirs(d, exist_ok=True)
